@@ -6,6 +6,7 @@ from sa.dataflow import Poly, cmp_key
 from sa.resolve import walk_function
 from rules.common import sub_returns_allocation, allocation_filters
 
+TECHNIQUE = 'static analysis (ast): value-id (polynomial) comparison of the allocation conversions and of the imbalance under `absolute` / relative assumptions, path counts of Trade construction per item, ledger equations of transact, dict-API shadowing sweep over the class hierarchy'
 EXPLANATION = (
     "Decides the structural clauses of C03 (value-id / polynomial domain, no execution): (S1) Weights._to_nr_contracts stores exactly "
     "weight x NLV / acq_price(weight) / multiplier per contract (execution-side quote: ask for long, bid for short targets, from the contract's own "
